@@ -203,7 +203,12 @@ def print_pat(p, rng, ctx=0, xmode=False, posix=False, defs=None):
         return sp + "(?" + on + ("-" + off if off else "") + ":" + inner + ")"
     if k == 'name':
         if defs is not None and p[1] not in defs:
-            defs[p[1]] = print_pat(p[2], rng, 0, False, posix, defs)
+            d = print_pat(p[2], rng, 0, False, posix, defs)
+            # the manual: a definition that "begins with ^ or ends with $" is expanded without parentheses; flex applies
+            # this to the text, so also to an escaped \$ at the end: such a definition is written with its own parentheses
+            if d.endswith("$") or d.startswith("^"):
+                d = "(" + d + ")"
+            defs[p[1]] = d
         return sp + "{" + p[1] + "}"
     raise ValueError(k)
 
